@@ -151,10 +151,14 @@ const FUNCTIONS: &[&str] = &[
     "CHR$", "CVD", "ENVIRON$", "EOF", "ERR", "INSTR", "LBOUND", "UBOUND", "LCASE$", "UCASE$", "LTRIM$",
     "RTRIM$", "LEFT$", "RIGHT$", "LEN", "MID$", "MKD$", "PEEK", "SPACE$", "STR$", "STRING$", "VAL",
     "VARPTR", "VARSEG",
+    // a name that is neither a built-in nor defined by the program (QBasic's ASC is not implemented)
+    "ASC",
 ];
 
 const ARGS: &[&str] = &[
     "1", "-1", "0", "70000", "1.5", "2.5#", "\"ab\"", "\"\"", "S$", "N%", "D#", "A(1)", "R.F", "A",
+    // a string with characters above 127
+    "H$",
 ];
 
 const SUBS: &[&str] = &[
@@ -162,7 +166,7 @@ const SUBS: &[&str] = &[
     "READ", "INPUT", "LINE INPUT", "GET #1,", "PUT #1,", "LSET S$ =", "NAME \"a\" AS", "CLOSE #", "FIELD #1,",
 ];
 
-const HEADER: &str = "TYPE T\n  F AS INTEGER\nEND TYPE\nDIM R AS T\nDIM A(3)\nS$ = \"xyz\"\nN% = 2\nD# = 3.5\nDATA 1, \"two\", 3.5\n";
+const HEADER: &str = "TYPE T\n  F AS INTEGER\nEND TYPE\nDIM R AS T\nDIM A(3)\nS$ = \"xyz\"\nH$ = CHR$(200) + \"a\" + CHR$(201)\nN% = 2\nD# = 3.5\nDATA 1, \"two\", 3.5\n";
 
 fn arg_lists(max_args: usize) -> Vec<String> {
     let mut out = vec![String::new()];
